@@ -8,7 +8,8 @@
 // This is how the pairs that cannot be extracted symbolically are decided (4x4 Gauss-Jordan, the 3-D
 // decomposition functions, removeScaling / sansScaling, ZToDepth / DepthToZ), and how the float decisions
 // one ulp either side of every guard are probed for the extracted ones.
-// usage: c07_pairs <seed> <n>      prints PAIR lines, PAIRFAIL lines and one C07PAIRS summary line
+// usage: c07_pairs <seed> <n> [lattice]   prints PAIR lines, PAIRFAIL lines and one C07PAIRS summary line;
+//        `lattice` adds the exhaustive small-integer lattices for the Gauss-Jordan pairs (gjLattice)
 #include <ImathVec.h>
 #include <ImathMatrix.h>
 #include <ImathMatrixAlgo.h>
@@ -269,8 +270,17 @@ template <class T, class M, int N> static M matInput (const char*& cls)
     typedef std::numeric_limits<T> L;
     M m;
     cls = "generic";
-    switch (rng () % 10)
+    switch (rng () % 11)
     {
+        case 10: // |det| = 2^-k * min * 2^j (normal), one cofactor 2^(j+2..j+5): clearly >= |det| / min, every entry a normal number
+        {
+            int j = ri (1, 6);
+            m[0][0] = (T) std::ldexp (1.0, -ri (0, 3));
+            m[1][1] = L::min () * (T) std::ldexp (1.0, j);
+            m[0][1] = (T) std::ldexp (1.0, j + ri (2, 5));
+            cls = "|det|-well-below-min*|cofactor|";
+            break;
+        }
         case 0: // |det| around 1: diagonal (1, 1 +- ulp, ...) possibly permuted with a unimodular shear
             m[0][0] = (rng () % 3 == 0) ? dn (T (1)) : (rng () & 1) ? T (1) : up (T (1));
             if (rng () & 1) m[0][1] = mod<T> ();
@@ -327,6 +337,55 @@ template <class T, class M, int N> static M matInput (const char*& cls)
     return m;
 }
 
+// Independent failure predicate for inverse (bool) of Matrix22 / Matrix33 (not "the identity came back", which moves with the
+// constant the code divides by): determinant and cofactors in long double, the REAL numeric_limits<T>::min (), and error bands
+// from the rounding of the element-type computation.  +1 = must throw, -1 = must return, 0 = inside the band (undecided).
+template <class T> static int inverseOracle (const long double* a, int n)
+{
+    typedef long double Q;
+    const Q eps = std::numeric_limits<T>::epsilon (), mn = std::numeric_limits<T>::min (), big = (Q) std::numeric_limits<T>::max () / 16;
+    std::vector<Q> cof, cofErr;
+    Q det = 0, detErr = 0;
+    // small integers: every product and sum of the element-type computation is exact; otherwise relative rounding errors
+    // plus an absolute term for products that fall into the subnormal range
+    bool exact = true;
+    for (int k = 0; k < n * n; ++k) if (!(a[k] == std::floor (a[k]) && std::fabs (a[k]) <= 1024)) exact = false;
+    const Q tiny = exact ? 0 : 4 * (Q) std::numeric_limits<T>::denorm_min (), rel = exact ? 0 : 4 * eps;
+    auto d2 = [&] (Q p, Q q, Q r, Q s, Q& err) { err = rel * (std::fabs (p * q) + std::fabs (r * s)) + tiny; return p * q - r * s; };
+    for (int k = 0; k < n * n; ++k) if (!(std::fabs (a[k]) < big) || (a[k] != 0 && std::fabs (a[k]) < mn)) return 0;
+    bool affine = n == 3 && a[2] == 0 && a[5] == 0 && a[8] == 1;
+    if (n == 2 || affine)
+    {
+        const int w = n;
+        Q e;
+        det = d2 (a[0], a[w + 1], a[w], a[1], e); detErr = e;
+        for (Q c : {a[w + 1], a[1], a[w], a[0]}) { cof.push_back (c); cofErr.push_back (0); }
+    }
+    else
+    {
+        const int idx[9][4] = {{4, 8, 7, 5}, {7, 2, 1, 8}, {1, 5, 4, 2}, {6, 5, 3, 8}, {0, 8, 6, 2}, {3, 2, 0, 5}, {3, 7, 6, 4}, {6, 1, 0, 7}, {0, 4, 3, 1}};
+        for (auto& q : idx) { Q e; cof.push_back (d2 (a[q[0]], a[q[1]], a[q[2]], a[q[3]], e)); cofErr.push_back (e); }
+        det = a[0] * cof[0] + a[1] * cof[3] + a[2] * cof[6];
+        detErr = 2 * rel * (std::fabs (a[0]) * (std::fabs (cof[0]) + cofErr[0]) + std::fabs (a[1]) * (std::fabs (cof[3]) + cofErr[3]) + std::fabs (a[2]) * (std::fabs (cof[6]) + cofErr[6]))
+                 + std::fabs (a[0]) * cofErr[0] + std::fabs (a[1]) * cofErr[3] + std::fabs (a[2]) * cofErr[6] + tiny;
+    }
+    for (Q c : cof) if (!(std::fabs (c) < big)) return 0;
+    Q ad = std::fabs (det);
+    if (!(ad < big)) return 0;
+    if (ad - detErr >= 1) return -1;
+    Q lo = (ad > detErr ? ad - detErr : 0) / mn * (1 - 2 * rel), hi = (ad + detErr) / mn * (1 + 2 * rel);
+    bool allBelow = true, someAbove = false;
+    for (size_t k = 0; k < cof.size (); ++k)
+    {
+        if (!(std::fabs (cof[k]) + cofErr[k] < lo)) allBelow = false;
+        if (std::fabs (cof[k]) - cofErr[k] >= hi) someAbove = true;
+    }
+    if (allBelow) return -1;
+    // the loop of the code stops at the FIRST failing cofactor, any failing one makes it throw
+    if (ad + detErr < 1 && someAbove) return 1;
+    return 0;
+}
+
 template <class T, class M, int N> static void inversePairs (const char* mn)
 {
     const char* cls;
@@ -337,6 +396,20 @@ template <class T, class M, int N> static void inversePairs (const char* mn)
     auto u  = run<T> ([&] (Res<T>& r) { putM (r, m.inverse ()); });
     auto cT = run<T> ([&] (Res<T>& r) { putM (r, m.inverse (true)); });
     auto cF = run<T> ([&] (Res<T>& r) { putM (r, m.inverse (false)); });
+    if (N <= 3)
+    {
+        long double q[9];
+        for (int k = 0; k < N * N; ++k) q[k] = (long double) in[k];
+        int o = inverseOracle<T> (q, N);
+        Stat& so = stats[p + "inverse(true)/oracle(long-double-det-and-cofactors,real-min())"];
+        ++so.evals;
+        ++so.cls[o > 0 ? "oracle:must-throw" : o < 0 ? "oracle:must-return" : "oracle:undecided(inside-rounding-band)"];
+        if (o > 0) ++so.threw; else if (o < 0) ++so.returned;
+        if ((o > 0 && cT.kind == 0) || (o < 0 && cT.kind != 0))
+            failLine (p + "inverse(true)/oracle(long-double-det-and-cofactors,real-min())", TN<T>::n (),
+                      o > 0 ? "|det| < 1 and a cofactor >= |det| / min () (long double), but inverse (true) returned"
+                            : "|det| >= 1 or every cofactor < |det| / min () (long double), but inverse (true) threw", hexOf (in), "throw-vs-oracle", cls);
+    }
     Res<T> id; putM (id, M ());
     // "reports failure" = the identity is returned for a matrix that is not the identity (exact for 2x2 / 3x3 by theorem M22/M33_inverse_failure)
     const bool notId = !(m == M ());
@@ -351,10 +424,55 @@ template <class T, class M, int N> static void inversePairs (const char* mn)
     Res<T> uu = u; for (auto& x : u.v) uu.v.push_back (x);
     if (!sameBits (iu, uu)) failLine (p + "invert()/inverse()", TN<T>::n (), "in-place form differs from the value form", hexOf (in), "inplace-vs-value", cls);
 }
+template <class T, class M, int N> static void gjPairsOn (const char* mn, const M& m0, const char* cls);
 template <class T, class M, int N> static void gjPairs (const char* mn)
 {
     const char* cls;
     M           m = matInput<T, M, N> (cls);
+    gjPairsOn<T, M, N> (mn, m, cls);
+}
+// EXHAUSTIVE small lattices for the Gauss-Jordan pairs (every zero-pivot / row-swap pattern occurs):
+//   3x3: all 262,144 matrices over {-1,0,1,2};   4x4: all 65,536 matrices over {0,1} and all 686,401 over {-1,0,1} with <= 6 non-zeros
+template <class T> static void gjLattice ()
+{
+    {
+        const T vals[4] = {T (-1), T (0), T (1), T (2)};
+        Matrix33<T> m;
+        for (long code = 0; code < 262144; ++code)
+        {
+            long c = code;
+            for (int a = 0; a < 3; ++a) for (int b = 0; b < 3; ++b) { m[a][b] = vals[c & 3]; c >>= 2; }
+            gjPairsOn<T, Matrix33<T>, 3> ("M33", m, "lattice{-1,0,1,2}^9(exhaustive)");
+        }
+    }
+    {
+        Matrix44<T> m;
+        for (long code = 0; code < 65536; ++code)
+        {
+            for (int k = 0; k < 16; ++k) m[k / 4][k % 4] = T ((code >> k) & 1);
+            gjPairsOn<T, Matrix44<T>, 4> ("M44", m, "lattice{0,1}^16(exhaustive)");
+        }
+        // support sets of size <= 6, every sign pattern
+        int pos[6];
+        std::function<void (int, int, int)> rec = [&] (int start, int k, int want) {
+            if (k == want)
+            {
+                for (long sg = 0; sg < (1L << want); ++sg)
+                {
+                    for (int q = 0; q < 16; ++q) m[q / 4][q % 4] = T (0);
+                    for (int q = 0; q < want; ++q) m[pos[q] / 4][pos[q] % 4] = ((sg >> q) & 1) ? T (-1) : T (1);
+                    gjPairsOn<T, Matrix44<T>, 4> ("M44", m, "lattice{-1,0,1}^16,<=6-non-zeros(exhaustive)");
+                }
+                return;
+            }
+            for (int q = start; q < 16; ++q) { pos[k] = q; rec (q + 1, k + 1, want); }
+        };
+        for (int want = 0; want <= 6; ++want) rec (0, 0, want);
+    }
+}
+template <class T, class M, int N> static void gjPairsOn (const char* mn, const M& m0, const char* cls)
+{
+    M           m = m0;
     std::vector<T> in;
     for (int a = 0; a < N; ++a) for (int b = 0; b < N; ++b) in.push_back (m[a][b]);
     std::string p = std::string (mn) + ".";
@@ -434,6 +552,24 @@ template <class T> static void frustumPairs ()
         auto c = run<T> ([&] (Res<T>& q) { q.v.push_back (fr.aspectExc ()); });
         auto u = run<T> ([&] (Res<T>& q) { q.v.push_back (fr.aspect ()); });
         check<T> ("Frustum.aspectExc/aspect", 1, c, u, 2, gGt (r - l, t - b), in, (r == l && t == b) ? "0/0" : "spans");
+        if (r == l && t == b)
+        {
+            // observation (audit W11): the header says aspectExc throws "if the aspect ratio is undefined"; for 0/0 neither form
+            // reports anything: both return NaN.  Counted, not a disagreement of the pair.
+            Stat& so = stats["Frustum.aspectExc/aspect"];
+            ++so.cls[(c.kind == 0 && c.v.size () == 1 && c.v[0] != c.v[0]) ? "0/0:checked-form-returned-NaN" : "0/0:checked-form-did-not-return-NaN"];
+        }
+    }
+    if (rng () % 3 == 0)
+    {
+        // right-left one ulp either side of max * (top-bottom), top-bottom a power of two below 1
+        T nn, d; const char* c2; straddle (nn, d, c2);
+        T l2 = T (0), r2 = nn, b2 = (rng () & 1) ? T (0) : -d / T (2), t2 = b2 + d;
+        FX<T> g (T (1), T (2), l2, r2, t2, b2, rng () & 1);
+        std::vector<T> in2{T (1), T (2), l2, r2, t2, b2};
+        auto c = run<T> ([&] (Res<T>& q) { q.v.push_back (g.aspectExc ()); });
+        auto u = run<T> ([&] (Res<T>& q) { q.v.push_back (g.aspect ()); });
+        check<T> ("Frustum.aspectExc/aspect", 1, c, u, 2, gGt (r2 - l2, t2 - b2), in2, c2);
     }
     {
         Vec2<T> p (any<T> (), any<T> ());
@@ -492,7 +628,8 @@ template <class T> static void frustumPairs ()
         };
         auto c = run<T> ([&] (Res<T>& q) { q.v.push_back (fr.normalizedZToDepthExc (z)); });
         auto u = run<T> ([&] (Res<T>& q) { q.v.push_back (fr.normalizedZToDepth (z)); });
-        check<T> (ortho ? "Frustum.normalizedZToDepthExc/normalizedZToDepth(ortho)" : "Frustum.normalizedZToDepthExc/normalizedZToDepth(persp)", 1, c, u, 2, guardNZ (z), in2);
+        check<T> (ortho ? "Frustum.normalizedZToDepthExc/normalizedZToDepth(ortho)" : "Frustum.normalizedZToDepthExc/normalizedZToDepth(persp)", 1, c, u, 2, guardNZ (z), in2,
+                  ortho ? "ortho(no-guard)" : "spans");
 
         long zmin = ri (-5, 5), zmax = (rng () % 4 == 0) ? zmin : zmin + ri (-3, 1000), zval = zmin + ri (-2, 1004);
         std::vector<T> in3 = in; in3.push_back ((T) zval); in3.push_back ((T) zmin); in3.push_back ((T) zmax);
@@ -502,12 +639,94 @@ template <class T> static void frustumPairs ()
         bool gz = zdiff == 0 || guardNZ ((T (zv) - T (zmin)) / T (zdiff));
         auto cz = run<T> ([&] (Res<T>& q) { q.v.push_back (fr.ZToDepthExc (zval, zmin, zmax)); });
         auto uz = run<T> ([&] (Res<T>& q) { q.v.push_back (fr.ZToDepth (zval, zmin, zmax)); });
-        check<T> ("Frustum.ZToDepthExc/ZToDepth", 1, cz, uz, 2, gz, in3, zdiff == 0 ? "zmax=zmin" : "zmax!=zmin");
+        check<T> ("Frustum.ZToDepthExc/ZToDepth", 1, cz, uz, 2, gz, in3, zdiff == 0 ? "zmax=zmin" : gz ? "zmax!=zmin,inner-guard-fires" : "zmax!=zmin,inner-guard-passes");
+    }
+    {
+        // The guard of normalizedZToDepthExc, |2fn| > max * |D| with D = Zp (f - n) - f - n and |D| < 1.  In binary floating point
+        // D is 0 or a multiple of an ulp of f, so (with 2fn finite) the guard can only fire for D = 0, or for D = -n after the
+        // cancellation (f - n) - f = 0 with 2 f n overflowing: there is no input with |2fn| one ulp ABOVE max * |D|.  Classes:
+        //   denominator=0 / one ulp of z either side of it;   far = max/2 (2fn = max * n exactly at the guard), one ulp below,
+        //   and far = 2^emax-1 (2 * far = inf).
+        const char* c2;
+        T nn, ff, z;
+        if (rng () & 1)
+        {
+            int a = ri (1, 3), q = ri (-6, 6), pp = ri (-2, 4);
+            nn = (T) std::ldexp ((double) a, q);
+            T sp = (T) std::ldexp (1.0, q + pp);
+            ff = nn + sp;
+            z  = T (1) + (T) std::ldexp ((double) a, -pp);          // Zp = 2z - 1 = (f + n) / (f - n)
+            int w = (int) (rng () % 3);
+            if (w == 1) z = up (z); else if (w == 2) z = dn (z);
+            T Zp = z * T (2) - T (1), D = Zp * (ff - nn) - ff - nn;
+            c2 = D == T (0) ? "denominator=0" : "denominator-one-ulp-of-z-from-0";
+        }
+        else
+        {
+            nn = (T) std::ldexp (1.0, -ri (1, 100));
+            z  = T (1);
+            T half = L::max () / T (2);
+            int w = (int) (rng () % 3);
+            ff = w == 0 ? dn (half) : w == 1 ? half : up (half);
+            c2 = w == 0 ? "one-ulp-below-guard" : w == 1 ? "exactly-at-guard" : "above-guard(2*far=inf)";
+        }
+        FX<T> g (nn, ff, T (-1), T (1), T (1), T (-1), false);
+        std::vector<T> in2{nn, ff, z};
+        auto gNZ = [&] (T zv) { T Zp = zv * T (2) - T (1); T ftn = 2 * ff * nn, fmn = Zp * (ff - nn) - ff - nn; return gGt (ftn, fmn); };
+        auto c = run<T> ([&] (Res<T>& q) { q.v.push_back (g.normalizedZToDepthExc (z)); });
+        auto u = run<T> ([&] (Res<T>& q) { q.v.push_back (g.normalizedZToDepth (z)); });
+        check<T> ("Frustum.normalizedZToDepthExc/normalizedZToDepth(persp)", 1, c, u, 2, gNZ (z), in2, c2);
+        // the same frusta through ZToDepthExc: integer arguments chosen so that (zval - zmin) / zdiff is that z (inner guard)
+        {
+            long zmin = ri (-5, 5), zdiff, zval;
+            const char* c3;
+            if (z == T (1)) { zdiff = ri (1, 300); zval = zmin + zdiff; c3 = c2; }
+            else
+            {
+                // z = 1 + a 2^-pp with a 2^-pp <= 1 / zdiff is needed (no wrap): take a = 1 frusta only, zdiff = 2^pp
+                T e = z - T (1);
+                int  ex;
+                double fr2 = std::frexp ((double) e, &ex);
+                if (!(fr2 == 0.5 && ex <= 0 && ex >= -9)) { zdiff = 0; zval = 0; c3 = nullptr; }
+                else { zdiff = 1L << (1 - ex); zval = zmin + zdiff + 1; c3 = c2; }
+            }
+            if (c3)
+            {
+                long zmax = zmin + zdiff;
+                std::vector<T> in3{nn, ff, (T) zval, (T) zmin, (T) zmax};
+                bool gz = gNZ ((T (zval) - T (zmin)) / T ((int) zdiff));
+                std::string k3 = std::string (gz ? "zmax!=zmin,inner-guard-fires," : "zmax!=zmin,inner-guard-passes,") + c3;
+                auto cz = run<T> ([&] (Res<T>& q) { q.v.push_back (g.ZToDepthExc (zval, zmin, zmax)); });
+                auto uz = run<T> ([&] (Res<T>& q) { q.v.push_back (g.ZToDepth (zval, zmin, zmax)); });
+                check<T> ("Frustum.ZToDepthExc/ZToDepth", 1, cz, uz, 2, gz, in3, k3.c_str ());
+            }
+        }
+    }
+    {
+        long zmin = ri (-5, 5), zmax = (rng () % 4 == 0) ? zmin : zmin + ri (-3, 1000);
 
         // DepthToZ: keep the frustum moderate so that the conversion to long is defined whenever the checked form returns
         T nn = (T) (0.1 + u01 ()), ff = nn + ((rng () % 3 == 0) ? span<T> () : (T) (1 + u01 () * 100));
         T depth = (rng () % 3 == 0) ? span<T> () * ((rng () & 1) ? 1 : -1) : -(nn + (T) u01 () * (ff - nn));
-        if (rng () % 4 == 0) { T a, d; const char* cc; straddle (a, d, cc); depth = d; ff = T (1); nn = a / T (2); }
+        std::string dcls = "spans";
+        if (rng () % 3 == 0)
+        {
+            // one ulp either side of a guard; zmax = zmin keeps the conversion to long defined (0.5 * (Zp + 1) * 0)
+            T a, d; const char* cc; straddle (a, d, cc);
+            zmax = zmin;
+            int w = ortho ? 2 : (int) (rng () % 2);
+            if (w == 0) { depth = d; ff = T (1); nn = a / T (2); dcls = std::string ("depth-guard:") + cc; }                    // 2 f n against max * |depth|
+            else if (w == 1)
+            {
+                // second perspective guard, 2fn / depth + f + n against max * (f - n): far - near = |d| exactly, depth chosen so that
+                // the quotient lands within a few ulps of max * |d| (the rounding of 2fn / depth cannot be steered to the ulp)
+                a = std::abs (a); d = std::abs (d);
+                ff = T (1); nn = T (1) - d;
+                depth = (T (2) * ff * nn) / a;
+                dcls = (nn == ff) ? "far-near-guard(persp):far=near" : "far-near-guard(persp):within-a-few-ulps-of-guard";
+            }
+            else { nn = T (0); ff = std::abs (d); depth = a / T (2); dcls = std::string ("far-near-guard:") + cc; }               // 2 depth + f + n against max * (f - n)
+        }
         FX<T> g3 (nn, ff, l, r, t, b, ortho);
         std::vector<T> in4{nn, ff, depth, T (ortho), (T) zmin, (T) zmax};
         bool gd;
@@ -523,11 +742,22 @@ template <class T> static void frustumPairs ()
             long double x  = 0.5L * (Zp + 1) * (zmax - zmin);
             defined = x == x && std::fabs ((double) x) < 9.0e18;
         }
-        if (defined)
+        const char* dname = ortho ? "Frustum.DepthToZExc/DepthToZ(ortho)" : "Frustum.DepthToZExc/DepthToZ(persp)";
+        if (cd.kind != 0)
+        {
+            // the checked form threw: the unchecked form would convert inf / NaN to long (undefined); only the guard is compared
+            Res<T> none;
+            check<T> (dname, 1, cd, none, 2, gd, in4, dcls.c_str ());
+        }
+        else if (defined)
         {
             auto ud = run<T> ([&] (Res<T>& q) { q.i.push_back (g3.DepthToZ (depth, zmin, zmax)); });
-            if (cd.kind != 0) { ud.i.clear (); }
-            check<T> (ortho ? "Frustum.DepthToZExc/DepthToZ(ortho)" : "Frustum.DepthToZExc/DepthToZ(persp)", 1, cd, ud, 2, gd, in4);
+            check<T> (dname, 1, cd, ud, 2, gd, in4, dcls.c_str ());
+        }
+        else
+        {
+            // returned, but the unchecked conversion is undefined for this value: compare the decision of the guard only
+            check<T> (dname, 1, cd, cd, 2, gd, in4, (dcls + ",unchecked-conversion-undefined(not-called)").c_str ());
         }
     }
     {
@@ -549,8 +779,36 @@ template <class T> static Matrix44<T> algoInput44 (const char*& cls)
     Matrix44<T> m;
     cls = "generic";
     T scales[] = {T (0), L::denorm_min (), L::min (), std::sqrt (L::min ()), (T) 1e-6, T (0.5), T (1), T (2), (T) 1e6, std::sqrt (L::max ()) / 4, L::max () / 8};
-    switch (rng () % 5)
+    switch (rng () % 7)
     {
+        case 5: // exactly one failing call site: a zero row, or axis-aligned rows whose orthogonalised row vanishes EXACTLY
+        {
+            T a = (T) ri (1, 4) * ((rng () & 1) ? 1 : -1), b = (T) ri (1, 4) * T (0.5), c = (T) ri (-3, 3), d = (T) ri (-3, 3);
+            int ax = ri (0, 2), ay = (ax + 1 + ri (0, 1)) % 3, az = 3 - ax - ay;
+            for (int q = 0; q < 3; ++q) for (int w = 0; w < 3; ++w) m[q][w] = T (0);
+            m[0][ax] = a; m[1][ay] = b; m[1][ax] = c; m[2][az] = (T) ri (1, 3); m[2][ax] = d; m[2][ay] = c;
+            m[3][0] = mod<T> (); m[3][1] = mod<T> (); m[3][2] = mod<T> ();
+            switch (rng () % 5)
+            {
+                case 0: for (int w = 0; w < 3; ++w) m[0][w] = T (0); cls = "row0=0"; break;
+                case 1: for (int w = 0; w < 3; ++w) m[1][w] = T (0); cls = "row1=0"; break;
+                case 2: for (int w = 0; w < 3; ++w) m[2][w] = T (0); cls = "row2=0"; break;
+                case 3: m[1][ay] = T (0); cls = "row1-parallel-to-row0(axis-aligned)"; break;
+                default: m[2][az] = T (0); cls = "row2-in-span-of-rows-0,1(axis-aligned)";
+            }
+            break;
+        }
+        case 6: // orthonormal rows 0, 1 (a rotation about z by a Pythagorean angle, exact) and row 2 in their span
+        {
+            static const int py[3][3] = {{3, 4, 5}, {5, 12, 13}, {8, 15, 17}};
+            const int* q = py[rng () % 3];
+            T cs = (T) q[0] / (T) q[2], sn = (T) q[1] / (T) q[2];
+            for (int a = 0; a < 4; ++a) for (int b = 0; b < 4; ++b) m[a][b] = (a == b) ? T (1) : T (0);
+            m[0][0] = cs; m[0][1] = sn; m[1][0] = -sn; m[1][1] = cs;
+            m[2][0] = (T) ri (-2, 2); m[2][1] = (T) ri (-2, 2); m[2][2] = T (0);
+            cls = "rows-0,1-orthonormal,row2-in-their-span";
+            break;
+        }
         case 0:
         case 1:
         {
@@ -585,6 +843,51 @@ template <class T> static Matrix33<T> algoInput33 (const char*& cls)
     if (rng () % 4 == 0) { r[0][2] = mod<T> (); r[1][2] = mod<T> (); r[2][2] = mod<T> (); }
     return r;
 }
+// Which checkForZeroScaleInRow call of extractAndRemoveScalingAndShear fails FIRST for this input (audit W4: every call site must be
+// reached, because a call site that loses its `exc` argument throws there, and only there, with exc = false).  The steps of the real
+// function are replayed in the same element type with the real Vec operations and the real guard (exc = false).
+template <class T> static const char* algoSite44 (const Matrix44<T>& mat)
+{
+    Vec3<T> row[3];
+    for (int i = 0; i < 3; ++i) row[i] = Vec3<T> (mat[i][0], mat[i][1], mat[i][2]);
+    T maxVal = 0;
+    for (int i = 0; i < 3; i++) for (int j = 0; j < 3; j++) if (IMATH_INTERNAL_NAMESPACE::abs (row[i][j]) > maxVal) maxVal = IMATH_INTERNAL_NAMESPACE::abs (row[i][j]);
+    if (maxVal != 0)
+        for (int i = 0; i < 3; i++) { if (!checkForZeroScaleInRow (maxVal, row[i], false)) return "site=maxVal"; row[i] /= maxVal; }
+    T sx = row[0].length ();
+    if (!checkForZeroScaleInRow (sx, row[0], false)) return "site=scl.x";
+    row[0] /= sx;
+    T sh0 = row[0].dot (row[1]);
+    row[1] -= sh0 * row[0];
+    T sy = row[1].length ();
+    if (!checkForZeroScaleInRow (sy, row[1], false)) return "site=scl.y";
+    row[1] /= sy;
+    T sh1 = row[0].dot (row[2]);
+    row[2] -= sh1 * row[0];
+    T sh2 = row[1].dot (row[2]);
+    row[2] -= sh2 * row[1];
+    T sz = row[2].length ();
+    if (!checkForZeroScaleInRow (sz, row[2], false)) return "site=scl.z";
+    return "site=none";
+}
+template <class T> static const char* algoSite33 (const Matrix33<T>& mat)
+{
+    Vec2<T> row[2];
+    for (int i = 0; i < 2; ++i) row[i] = Vec2<T> (mat[i][0], mat[i][1]);
+    T maxVal = 0;
+    for (int i = 0; i < 2; i++) for (int j = 0; j < 2; j++) if (IMATH_INTERNAL_NAMESPACE::abs (mat[i][j]) > maxVal) maxVal = IMATH_INTERNAL_NAMESPACE::abs (mat[i][j]);
+    if (maxVal != 0)
+        for (int i = 0; i < 2; i++) { if (!checkForZeroScaleInRow (maxVal, row[i], false)) return "site=maxVal"; row[i] /= maxVal; }
+    T sx = row[0].length ();
+    if (!checkForZeroScaleInRow (sx, row[0], false)) return "site=scl.x";
+    row[0] /= sx;
+    T sh = row[0].dot (row[1]);
+    row[1] -= sh * row[0];
+    T sy = row[1].length ();
+    if (!checkForZeroScaleInRow (sy, row[1], false)) return "site=scl.y";
+    return "site=none";
+}
+
 template <class T> static void algoPairs ()
 {
     typedef std::numeric_limits<T> L;
@@ -627,11 +930,13 @@ template <class T> static void algoPairs ()
         else check<T> (name, 1, c, u, 0, false, in, cls);
     };
     {
-        const char* cls;
-        Matrix44<T> m = algoInput44<T> (cls);
+        const char* cls0;
+        Matrix44<T> m = algoInput44<T> (cls0);
         std::vector<T> in;
         for (int a = 0; a < 4; ++a) for (int b = 0; b < 4; ++b) in.push_back (m[a][b]);
         Res<T> inp; putM (inp, m);
+        std::string clsS = std::string (cls0) + "," + algoSite44<T> (m);
+        const char* cls = clsS.c_str ();
         boolPair ("Algo.extractScaling(M44)", in, cls, [&] (bool e, Res<T>& q) { Vec3<T> s (T (0)); bool ok = extractScaling (m, s, e); q.i.push_back (ok); if (ok) putV (q, s); });
         boolPair ("Algo.extractScalingAndShear(M44)", in, cls, [&] (bool e, Res<T>& q) { Vec3<T> s (T (0)), h (T (0)); bool ok = extractScalingAndShear (m, s, h, e); q.i.push_back (ok); if (ok) { putV (q, s); putV (q, h); } });
         boolPair ("Algo.extractAndRemoveScalingAndShear(M44)", in, cls, [&] (bool e, Res<T>& q) { Matrix44<T> c = m; Vec3<T> s (T (0)), h (T (0)); bool ok = extractAndRemoveScalingAndShear (c, s, h, e); q.i.push_back (ok); putM (q, c); if (ok) { putV (q, s); putV (q, h); } });
@@ -645,11 +950,13 @@ template <class T> static void algoPairs ()
         matPair ("Algo.sansScalingAndShear(result,M44)", in, cls, inp, [&] (bool e, Res<T>& q) { Matrix44<T> res = m; sansScalingAndShear (res, m, e); putM (q, res); });
     }
     {
-        const char* cls;
-        Matrix33<T> m = algoInput33<T> (cls);
+        const char* cls0;
+        Matrix33<T> m = algoInput33<T> (cls0);
         std::vector<T> in;
         for (int a = 0; a < 3; ++a) for (int b = 0; b < 3; ++b) in.push_back (m[a][b]);
         Res<T> inp; putM (inp, m);
+        std::string clsS = std::string (cls0) + "," + algoSite33<T> (m);
+        const char* cls = clsS.c_str ();
         boolPair ("Algo.extractScaling(M33)", in, cls, [&] (bool e, Res<T>& q) { Vec2<T> s (T (0)); bool ok = extractScaling (m, s, e); q.i.push_back (ok); if (ok) putV (q, s); });
         boolPair ("Algo.extractScalingAndShear(M33)", in, cls, [&] (bool e, Res<T>& q) { Vec2<T> s (T (0)); T h = 0; bool ok = extractScalingAndShear (m, s, h, e); q.i.push_back (ok); if (ok) { putV (q, s); q.v.push_back (h); } });
         boolPair ("Algo.extractAndRemoveScalingAndShear(M33)", in, cls, [&] (bool e, Res<T>& q) { Matrix33<T> c = m; Vec2<T> s (T (0)); T h = 0; bool ok = extractAndRemoveScalingAndShear (c, s, h, e); q.i.push_back (ok); putM (q, c); if (ok) { putV (q, s); q.v.push_back (h); } });
@@ -686,6 +993,11 @@ int main (int argc, char** argv)
     rng.seed (seed * 2654435761ul + 17);
     all<float> (n);
     all<double> (n);
+    if (argc > 3 && std::string (argv[3]) == "lattice")
+    {
+        gjLattice<float> ();
+        gjLattice<double> ();
+    }
     long evals = 0;
     for (auto& kv : stats)
     {
